@@ -420,6 +420,30 @@ def _handler_names(htype) -> set[str]:
 
 
 # ---------------------------------------------------------------------- condition helpers
+_MIRROR = {"<": ">", "<=": ">=", ">": "<", ">=": "<=", "==": "==", "!=": "!="}
+
+
+def _is_const_text(t: str) -> bool:
+    try:
+        ast.literal_eval(t)
+        return True
+    except Exception:
+        return False
+
+
+def canonical_atom(lhs: str, op: str, rhs: str) -> tuple:
+    """One orientation per comparison (same convention as Model._normalise): a constant operand goes to the right;
+    between two non-constant operands `<` / `<=` are written as `>` / `>=` with the operands swapped."""
+    if op in _MIRROR:
+        lc, rc = _is_const_text(lhs), _is_const_text(rhs)
+        if (lc and not rc) or (not lc and not rc and op in ("<", "<=")):
+            return (rhs, _MIRROR[op], lhs)
+    return (lhs, op, rhs)
+
+
+A = canonical_atom
+
+
 def normalise_compare(test: ast.AST):
     """Return a list of (lhs_src, op, rhs_src) atoms of a test in a normal form where
     `not (a <= b)` becomes `a > b`.  Only single-comparator Compare nodes are normalised;
@@ -440,7 +464,7 @@ def normalise_compare(test: ast.AST):
             op = type(t.ops[0])
             if neg:
                 op = NEG[op]
-            return ("atom", (src(t.left), SYM[op], src(t.comparators[0])))
+            return ("atom", canonical_atom(src(t.left), SYM[op], src(t.comparators[0])))
         return ("atom", (src(t), "falsy" if neg else "truthy", ""))
 
     return go(test, False)
